@@ -467,6 +467,90 @@ def run_passes(ctx, drv, fa):
     return total_bad
 
 
+PAIR_SOURCES = [
+    "f(x)\nf(x, y)\nf(x)(y)\nf\n",  # shared prefixes
+    "{e}\nf'{e}'\n{a: b}\nf'{a: b}'\n{(a, b)}\nf'{a, b}'\n",  # the twins of round 9 (one unparsed text)
+    "\"Name(id='x')\"\nx\n\"Name(id='x', ctx=Load())\"\n'x'\n",  # a string that looks like a dump
+    "'a, b'\n[a, b]\n['a', 'b']\n['a, b']\n[\"a', 'b\"]\n",  # separators inside literals
+    "a[i] = a[i]\nx = x\n(a, b) = (a, b)\n[a, *b] = [a, *b]\na.b = a.b\n",  # load / store copies
+    "'it\\'s\"'\n\"it's\"\n'it\"s'\nb'\\''\n'\\''\n'\\\\'\n'\\\\\\''\nb'\\\\'\n",  # quotes and backslashes
+    "1\n1.0\n1j\n'1'\nb'1'\nTrue\n'True'\nNone\n'None'\n...\n'Ellipsis'\n1e22\n1e999\n1e999j\n-1\n",
+    "lambda x: x\nlambda x, y: x\nlambda x=None: x\nlambda *x: x\n",
+    "x[1:2]\nx[1:2:None]\nx[:2]\nx[1:]\nx[::1]\nx[None:2]\n",  # absent optional fields vs explicit None constants
+    "f(a=1)\nf(**a)\nf(*a)\nf(a)\n",
+    "', ctx=Load()'\n''\n'x, ctx=Store()'\n'x'\n",
+]
+
+
+def flip_ctx(node):
+    """A deep copy in which every Load context is a Store and conversely (not compilable; only dumped)."""
+    import copy
+
+    n = copy.deepcopy(node)
+    for x in ast.walk(n):
+        if isinstance(getattr(x, "ctx", None), ast.Load):
+            x.ctx = ast.Store()
+        elif isinstance(getattr(x, "ctx", None), (ast.Store, ast.Del)):
+            x.ctx = ast.Load()
+    return n
+
+
+def run_pairs(ctx, drv, sources):
+    """The converse of the hash property on real texts, across trees: for pairs of real expression nodes, the model's
+    `sameExpr` / `sameUpToCtx` on the exported nodes against the equality of the strings the real code hashes
+    (`remove_context("", ast.dump(node))`), and `dumpNoCtx` against that string."""
+    rng = ctx.rng
+    exprs = []
+    for src in PAIR_SOURCES + sources[:40]:
+        try:
+            tree = ast.parse(src)
+        except (SyntaxError, ValueError):
+            continue
+        exprs += [n for n in ast.walk(tree) if isinstance(n, ast.expr)][:80]
+    texts = [fe.REMOVE_CONTEXT("", ast.dump(n)) for n in exprs]
+    by_text = {}
+    for i, t in enumerate(texts):
+        by_text.setdefault(t, []).append(i)
+    pairs = []
+    for i, n in enumerate(exprs):  # each expression against its context-flipped copy
+        pairs.append((n, flip_ctx(n), "flip"))
+    same = [v for v in by_text.values() if len(v) > 1]
+    for v in same[:200]:  # same hashed text, different nodes
+        i, j = rng.sample(v, 2)
+        pairs.append((exprs[i], exprs[j], "same-text"))
+    for _ in range(800 if ctx.tier == "quick" else 12000):  # random pairs: mostly different expressions
+        i, j = rng.randrange(len(exprs)), rng.randrange(len(exprs))
+        pairs.append((exprs[i], exprs[j], "random"))
+    n_pair = len([n for n in exprs[:60]])
+    for i in range(n_pair):  # all pairs among the expressions of the hand-written sources
+        for j in range(i + 1, n_pair):
+            pairs.append((exprs[i], exprs[j], "all-pairs"))
+    reqs = [{"op": "c15.same_expr", "a": fe.export(a), "b": fe.export(b)} for a, b, _ in pairs]
+    outs = fe.batch(drv, reqs)
+    bad = 0
+    stats = ctx.cov.setdefault("expr_pairs", {"pairs": 0, "same": 0, "different": 0, "disagreements": 0, "not_wf": 0})
+    for (a, b, kind), o in zip(pairs, outs):
+        ta, tb = fe.REMOVE_CONTEXT("", ast.dump(a)), fe.REMOVE_CONTEXT("", ast.dump(b))
+        real_same = ta == tb
+        stats["pairs"] += 1
+        stats["same" if real_same else "different"] += 1
+        ctx.count("expr-pairs", (ta, tb), nontrivial=real_same != (a is b) or (not real_same and (ta.startswith(tb[:-1]) or tb.startswith(ta[:-1]))))
+        ctx.dist(f"expr-pairs:{kind}:" + ("same hashed text" if real_same else "different hashed texts"))
+        if not (o["wf_a"] and o["wf_b"]):
+            stats["not_wf"] += 1
+            ctx.broken.append("corr:wfDump-on-real-tree")
+        ok = (o["dump_a"] == ta and o["dump_b"] == tb and o["same_expr"] == real_same and o["same_up_to_ctx"] == real_same)
+        if not ok:
+            bad += 1
+            if bad == 1:
+                ctx.notes.append(f"expr-pairs: real texts {ta!r} / {tb!r} (same: {real_same}); model {o!r}")
+                ctx.cov.setdefault("corr_replay", {"pair": [ta, tb], "real_same": real_same, "model": o})
+    stats["disagreements"] += bad
+    if bad:
+        ctx.broken.append("corr:expr-pairs")
+    return bad
+
+
 def run_sequences(ctx, drv, fa, sources):
     """Any sequence of flattenings in one process gives the same text per tree."""
     rng = ctx.rng
@@ -574,6 +658,9 @@ def run(ctx):
         t1 = ctx.elapsed()
         run_sequences(ctx, drv, fa, sources)
         marks["sequences"] = round(ctx.elapsed() - t1, 1)
+        t1 = ctx.elapsed()
+        run_pairs(ctx, drv, sources)
+        marks["expr-pairs"] = round(ctx.elapsed() - t1, 1)
         t1 = ctx.elapsed()
         run_passes(ctx, drv, fa)
         marks["passes"] = round(ctx.elapsed() - t1, 1)
